@@ -333,7 +333,7 @@ def run(tier, seed, only_cases=None):
     vc.log("[tlc] %d states, %d cases, old-mechanism self-test violated %s" % (states, len(cases), r_old.violated))
 
     # ---- (2) S->I replay ------------------------------------------------------------------------
-    budget = 6000 if tier == "quick" else 40000
+    budget = 9000 if tier == "quick" else 40000
     interesting = [c for c in cases if c["mech"] != c["ref"] * 2]
     rest = [c for c in cases if c["mech"] == c["ref"] * 2]
     cyc = [c for c in rest if has_cycle(c["tab"])]
